@@ -44,7 +44,8 @@ def expand(b, rnd, norders):
                 continue
             c = dict(order=list(order), att={m: sorted(b['att'][m]) for m in mods},
                      wrong=[list(e) for e in b['wrong']], fail=b['fail'], polls=sorted(b['polls']),
-                     writes=sorted(b['writes']), acc={m: accmode for m in mods}, exported=mods)
+                     writes=sorted(b['writes']), acc={m: accmode for m in mods}, exported=mods,
+                     host=b.get('host') or {m: m for m in mods})
             out.append(c)
             if accmode != 'init':
                 # the same with attachments declared optional (mandatory=False) and given in the configuration
@@ -52,11 +53,23 @@ def expand(b, rnd, norders):
     return out
 
 
+def _healthy(b):
+    mods = set(b['mods'])
+    if any(v != 'none' for v in b['fail'].values()) or b['wrong']:
+        return False
+    if any(t not in mods for m in mods for t in b['att'][m]):
+        return False
+
+    def cyc(m, path):
+        return any(t in path or cyc(t, path | {t}) for t in b['att'][m])
+    return not any(cyc(m, {m}) for m in mods)
+
+
 def _run(cfg):
     from ..lifeworld import run_config
     log = run_config(cfg)
     head = {'ev': 'cfg', 'order': cfg['order'], 'att': cfg['att'], 'wrong': cfg['wrong'], 'fail': cfg['fail'],
-            'polls': cfg['polls'], 'writes': cfg['writes']}
+            'polls': cfg['polls'], 'writes': cfg['writes'], 'host': cfg.get('host') or {m: m for m in cfg['order']}}
     return [head] + log
 
 
@@ -77,7 +90,7 @@ def _explore(args):
     from ..lifeworld import run_config
     cfg = SCHED_CONFIGS[ci]
     head = {'ev': 'cfg', 'order': cfg['order'], 'att': cfg['att'], 'wrong': cfg['wrong'], 'fail': cfg['fail'],
-            'polls': cfg['polls'], 'writes': cfg['writes']}
+            'polls': cfg['polls'], 'writes': cfg['writes'], 'host': cfg.get('host') or {m: m for m in cfg['order']}}
     out = []
     if mode == 'dfs':
         class Run:
@@ -113,7 +126,10 @@ def run(chk):
     if not quick and len(behs) > 40000:
         behs = rnd.sample(behs, 40000)
     if quick and len(behs) > 1500:
-        behs = rnd.sample(behs, 1500)
+        # all healthy configurations (few), and a sample of the many unhealthy ones
+        good = [b for b in behs if _healthy(b)]
+        rest = [b for b in behs if not _healthy(b)]
+        behs = good + rnd.sample(rest, min(len(rest), 1500 - len(good)))
     cfgs = []
     for b in behs:
         cfgs += expand(b, rnd, 1 if quick else 2)
@@ -128,6 +144,14 @@ def run(chk):
                 cfgs.append(dict(order=order, att=att, wrong=[], fail={m: 'none' for m in order}, polls=['x', 'y'],
                                  writes=['y'], acc={m: acc for m in order}, exported=['x', 'y'],
                                  pinata={'p': ['y']}))
+    # chains of modules polled through each other's `io` (three deep, the middle one polled itself), shared io
+    for att, host in (({'a': ['b'], 'b': ['c'], 'c': []}, {'a': 'b', 'b': 'c', 'c': 'c'}),
+                      ({'a': ['c'], 'b': ['c'], 'c': []}, {'a': 'c', 'b': 'c', 'c': 'c'}),
+                      ({'a': ['b', 'c'], 'b': ['c'], 'c': []}, {'a': 'b', 'b': 'c', 'c': 'c'})):
+        for order in itertools.permutations('abc'):
+            for polls, writes in ((['a', 'b', 'c'], ['a', 'c']), (['a', 'c'], ['b']), (['a', 'b'], [])):
+                cfgs.append(dict(order=list(order), att=att, wrong=[], fail={m: 'none' for m in 'abc'}, polls=polls,
+                                 writes=writes, acc={m: 'init' for m in 'abc'}, exported=['a', 'b', 'c'], host=host))
     traces = pool_map(_run, cfgs)
     # thread schedules: the server thread (start loop, start events, shutdown) against the poll threads
     jobs = []
